@@ -21,7 +21,17 @@ LEVEL_TEXT = ("Proof over the reals: for every rate array whose active bins have
               "of rate <= 0, hence EVERY simulated entry equals the definition with no hypothesis on the rates (D17 can only "
               "concern the observed entry); Brier observed/simulated normalisers; no exception for rows of the right width, the "
               "count assertion for any other width; sign of the joint log-likelihood. The model now receives only rates, observed "
-              "counts and the uniform numbers and produces the simulated catalogs itself.")
+              "counts and the uniform numbers and produces the simulated catalogs itself. Round 4 (owners): (i) the numpy.ma "
+              "layer is modelled statement by statement - masked_where, negative, exp, 1.0 - m, log with its domain, y * m, .data, "
+              "data AND mask of every slot - and the composition is proved equal to the hand model (binaryLLMa_eq_binaryLL), with "
+              "what sits under the mask of first_term (the multiplier y: D17's +1) as a theorem; each primitive is compared with "
+              "numpy.ma itself on every run; (ii) 1 - poisson.cdf(0, rate) of the Brier kernel is C07's model of scipy's Poisson "
+              "cdf at 0 (finite sum up to floor 0), no longer a separate assumption; (iii) the three public tests take the CATALOG "
+              "(events' cell / magnitude-bin lookups) through C03's gridding model: the activity clause is proved at catalog "
+              "level - two catalogs occupying the same set of (cell, bin) pairs (cells for the S test), however many events each "
+              "holds, get the same observed entry, simulated catalogs, entries and quantile, for every RealOps instance; a further "
+              "event in an occupied bin is invisible; rejections of the gridding call characterised; (iv) num_simulations as an "
+              "argument of its own (first num_simulations rows read, exactly that many entries).")
 LEVEL_NOTE = ("Floating-point rounding of exp/log/poisson.cdf is not modelled; comparison to 1e-9 relative plus the rounding "
               "of 1-exp(-rate) itself (2^-51/(1-exp(-rate)) per active bin: the code's subtraction loses up to 8 digits at "
               "rate 1e-9). scipy.stats.poisson.cdf(0, rate) is modelled as exp(-rate). Placement of simulated events is C06.")
@@ -37,12 +47,25 @@ THEOREMS = ["BinaryBrier.binaryLL_eq_def", "BinaryBrier.binaryLL_eq_binaryDef", 
             "BinaryBrier.sim_entry_active_pos", "BinaryBrier.binary_test_entries_eq_def",
             "BinaryBrier.binary_test_observed_eq_def", "BinaryBrier.brier_test_entries_eq_def",
             "BinaryBrier.brier_test_sim_arrays", "BinaryBrier.pipeline_total", "BinaryBrier.pipeline_row_width_assert",
-            "BinaryBrier.pipeline_quantile", "BinaryBrier.wrappers_report_def", "BinaryBrier.binaryLL_nonpos"]
+            "BinaryBrier.pipeline_quantile", "BinaryBrier.wrappers_report_def", "BinaryBrier.binaryLL_nonpos",
+            "BinaryBrier.binary_stream_entries_eq_def", "BinaryBrier.brier_stream_entries_eq_def",
+            # round 4 of the owners: numpy.ma layer + poisson.cdf (Properties/C16_Masked.lean), catalog level (C16_Public.lean)
+            "BinaryBrier.Ma.maTerms_eq_binTerms", "BinaryBrier.Ma.binaryLLMa_eq_binaryLL", "BinaryBrier.Ma.binaryLLMa_eq_def",
+            "BinaryBrier.Ma.binaryLLMa_activity_only", "BinaryBrier.Ma.first_term_masked_slots",
+            "BinaryBrier.Ma.filled0_maskedWhere", "BinaryBrier.Ma.poisCdf0_eq_poisCdf", "BinaryBrier.Ma.brierCell_via_poisCdf",
+            "BinaryBrier.pipeline_activity_only", "BinaryBrier.activity_countMatrix", "BinaryBrier.activity_countVec",
+            "BinaryBrier.public_activity_only", "BinaryBrier.public_spatial_activity_only",
+            "BinaryBrier.duplicate_event_invisible", "BinaryBrier.public_entries_eq_def", "BinaryBrier.public_rejects_iff",
+            "BinaryBrier.pipeline_entry_count", "BinaryBrier.publicN_reads_first_rows", "BinaryBrier.publicN_too_few_rows",
+            "BinaryBrier.region_binding"]
 TRUSTED = ["Lean 4.33 kernel", "axioms: propext, Classical.choice, Quot.sound at most",
            "Real.log / Real.exp stand for numpy.log / numpy.exp; scipy.stats.poisson.cdf(0, r) = exp(-r); rounding not "
            "modelled, Float instance compared numerically on every run",
-           "numpy.ma semantics transcribed by hand (a masked slot of y*masked carries y): checked numerically on every run "
-           "through the zero-rate cases", "numpy.cumsum / numpy.searchsorted place simulated events (C06)",
+           "numpy.ma: six one-line primitives (Model/MaskedOps.lean: data and mask of every slot for masked_where, negative, "
+           "exp, 1.0 - m, log, y * m), each compared with numpy.ma itself on 400 / 6000 random masked arrays per run; their "
+           "composition is proved equal to the scored formula", "scipy.stats.poisson.cdf = finite sum of the mass function "
+           "up to floor(x) (C07's model; at 0 this is exp(-rate), compared numerically on every run)",
+           "Soft64 = IEEE binary64 for cumsum / division of the sampling weights (C06)",
            "gridding of interior points by CSEPCatalog / CartesianGrid2D (C01-C03)",
            "harness/c16.py generators, oracle and comparison; driver parsing (Proto.lean, Drive/C16.lean)"]
 RULE = ("array level: 1-D (1..200 bins) and 2-D ((1..40)x(1..8)) rate arrays, rates 10^U(-9,1) (classes wide, tiny, large, mixed) "
@@ -69,7 +92,13 @@ RULE = ("array level: 1-D (1..200 bins) and 2-D ((1..40)x(1..8)) rate arrays, ra
         "a purely spatial region (bound to the forecast's region by the CL / Brier test, S-test afterwards on the same "
         "object); sessions on ONE forecast object and two catalogs sharing a region object: evaluations, the per-cell map "
         "and scalar / array-valued re-scalings in random order, forecast rates and catalog events snapshotted around every "
-        "evaluation.")
+        "evaluation. Round 4 (owners): every array-level call also through the statement-level numpy.ma model (c16_bll_ma); "
+        "public tests are sent to the model as CATALOGS (events' (cell, bin) lookups; the model grids them itself); one public "
+        "call in eight and two array-driver calls in three inject 1-2 rows more than num_simulations; about 1% of the public "
+        "tests are long verbose runs (100-130 simulations, progress branch); 400 (quick) / 6000 (thorough) random masked arrays "
+        "through each numpy.ma primitive; 35% of the float64 public-test forecasts carry a scale factor of any kind scale() "
+        "documents (scalars, 0-d, (1,1), (n,1), (m,), (1,m), (n,m) arrays, scale_to_test_date; 0-2 earlier factors first), "
+        "rates under test = stored x last factor computed by the harness.")
 
 # the exact-rational (Soft64) sampling weights of the pipeline model cost ~0.15 ms per bin: arrays beyond this size are
 # scored through the Float ops (c16_bll / c16_brier / c16_mode) with the simulated catalogs placed by the harness
@@ -366,9 +395,23 @@ def _materialise(spec):
     return rates, counts, counts2, vals, rdt, cdt
 
 
+def _private(run, module, name, params=()):
+    from . import c05 as _c05
+    return _c05._private(run, module, name, params)
+
+
+_DRIVER_PARAMS = ("forecast_data", "observed_data", "num_simulations", "random_numbers", "seed", "verbose")
+
+
 def _array_case(run, drv, pending, spec, tag="array"):
-    from csep.core.binomial_evaluations import binary_joint_log_likelihood_ndarray
-    from csep.core.brier_evaluations import _brier_score_ndarray
+    from csep.core import binomial_evaluations as _be
+    from csep.core import brier_evaluations as _br
+    # array-level kernels: one public name, one private (skipped when gone: brier_score_test reaches the same kernel)
+    binary_joint_log_likelihood_ndarray = _private(run, _be, "binary_joint_log_likelihood_ndarray", ("forecast", "catalog"))
+    _brier_score_ndarray = _private(run, _br, "_brier_score_ndarray", ("forecast", "observations"))
+    if binary_joint_log_likelihood_ndarray is None and _brier_score_ndarray is None:
+        return
+    have_b, have_r = binary_joint_log_likelihood_ndarray is not None, _brier_score_ndarray is not None
     shape = tuple(spec["shape"])
     rates, counts, counts2, vals, rdt, cdt = _materialise(spec)
     eps = EPS64
@@ -392,22 +435,31 @@ def _array_case(run, drv, pending, spec, tag="array"):
     try:
         with numpy.errstate(all="ignore"):
             # the arrays are handed over as they are (no copy: a copy would normalise the layout under test)
-            bll = float(binary_joint_log_likelihood_ndarray(rates, counts))
-            bll2 = float(binary_joint_log_likelihood_ndarray(rates, counts2))
-            bri = float(_brier_score_ndarray(rates, counts))
-            bri2 = float(_brier_score_ndarray(rates, counts2))
+            bll = float(binary_joint_log_likelihood_ndarray(rates, counts)) if have_b else None
+            bll2 = float(binary_joint_log_likelihood_ndarray(rates, counts2)) if have_b else None
+            bri = float(_brier_score_ndarray(rates, counts)) if have_r else None
+            bri2 = float(_brier_score_ndarray(rates, counts2)) if have_r else None
     except Exception as e:
         run.oracle_failure(case, f"array-level call raised {type(e).__name__}: {e}")
         return
-    t1 = _check_binary(run, case, "binary_joint_log_likelihood_ndarray", bll, fr, fc, eps)
-    t2 = _check_brier(run, case, "_brier_score_ndarray", bri, fr, fc, eps)
-    # depends on the observation only through which bins are active
-    if not ((bll == bll2 if t1 is None else _close(bll, bll2, t1)) and _close(bri, bri2, t2)):
-        run.oracle_failure(case, f"scores differ for two count arrays with the same support: binary {bll!r} vs {bll2!r}, "
-                                 f"brier {bri!r} vs {bri2!r}")
-    i = drv.ask(f"c16_bll {_lst(fr, _bits)} {_lst(fc, str)}")
-    j = drv.ask(f"c16_brier {_lst(shape, str)} {_lst(fr, _bits)} {_lst(fc, str)}")
-    pending.append((case, "array", [i, j], [bll, bri], [t1, t2]))
+    idx, vals_, tols_ = [], [], []
+    if have_b:
+        t1 = _check_binary(run, case, "binary_joint_log_likelihood_ndarray", bll, fr, fc, eps)
+        # depends on the observation only through which bins are active
+        if not (bll == bll2 if t1 is None else _close(bll, bll2, t1)):
+            run.oracle_failure(case, f"scores differ for two count arrays with the same support: binary {bll!r} vs {bll2!r}")
+        # the hand model, and (round 4) the statement-level model: composition of the numpy.ma primitives (Model/MaskedOps.lean)
+        idx += [drv.ask(f"c16_bll {_lst(fr, _bits)} {_lst(fc, str)}"), drv.ask(f"c16_bll_ma {_lst(fr, _bits)} {_lst(fc, str)}")]
+        vals_ += [bll, bll]
+        tols_ += [t1, t1]
+    if have_r:
+        t2 = _check_brier(run, case, "_brier_score_ndarray", bri, fr, fc, eps)
+        if not _close(bri, bri2, t2):
+            run.oracle_failure(case, f"scores differ for two count arrays with the same support: brier {bri!r} vs {bri2!r}")
+        idx.append(drv.ask(f"c16_brier {_lst(shape, str)} {_lst(fr, _bits)} {_lst(fc, str)}"))
+        vals_.append(bri)
+        tols_.append(t2)
+    pending.append((case, "array", idx, vals_, tols_))
     if spec.get("drivers"):
         _array_drivers(run, drv, pending, case, spec, rates, counts, vals, fc, rdt)
 
@@ -415,17 +467,22 @@ def _array_case(run, drv, pending, spec, tag="array"):
 def _array_drivers(run, drv, pending, case, spec, rates, counts, vals, fc, rdt):
     """the array-level test drivers behind the public tests, on the same representation: observed and every simulated
     entry are the definition's values (injected uniform numbers, one per active bin)"""
-    from csep.core.binomial_evaluations import _binary_likelihood_test
-    from csep.core.brier_evaluations import _brier_score_test
+    from csep.core import binomial_evaluations as _be
+    from csep.core import brier_evaluations as _br
+    _binary_likelihood_test = _private(run, _be, "_binary_likelihood_test", _DRIVER_PARAMS)
+    _brier_score_test = _private(run, _br, "_brier_score_test", _DRIVER_PARAMS)
+    if _binary_likelihood_test is None or _brier_score_test is None:
+        return
     n_active = sum(1 for c in fc if c > 0)
     nsim = spec["drivers"]
     g = numpy.random.default_rng(spec["rn_seed"])
     shape = tuple(spec["shape"])
     for mode, fn in (("CL", _binary_likelihood_test), ("B", _brier_score_test)):
-        rn = g.random((nsim, n_active))
+        rn_all = g.random((nsim + (spec["rn_seed"] // 11) % 3, n_active))         # 0-2 rows more than simulations asked
+        rn = rn_all[:nsim]
         try:
             with numpy.errstate(all="ignore"):
-                qs, obs, td = fn(rates, counts, num_simulations=nsim, random_numbers=rn, verbose=False)
+                qs, obs, td = fn(rates, counts, num_simulations=nsim, random_numbers=rn_all, verbose=False)
         except Exception as e:
             run.oracle_failure(case, f"{fn.__name__} raised {type(e).__name__}: {e}")
             continue
@@ -550,7 +607,31 @@ def _gen_test_spec(rng, tier):
         if rdt != "f8":
             # whole-number / float32 rates are held as they are (data/c would leave the dtype's value set)
             spec["fscale"] = None
+    if rdt == "f8" and rng.random() < 0.35:
+        # round 4 (owners): every kind of factor scale() documents - python / numpy scalars, 0-d and (1,1) arrays, per-cell
+        # (n,1), per-magnitude (m,) / (1,m), per-bin (n,m) arrays, scale_to_test_date - with 0-2 earlier factors set before
+        # the one that counts (the factor is absolute); generator shared with C05
+        from . import c05 as _c05
+        spec["fscale"] = None
+        spec["factor"] = dict(last=_c05._gen_factor(rng), pre=[_c05._gen_factor(rng, False) for _ in range(rng.choice([0, 0, 1, 2]))])
     return spec
+
+
+def _bound_to(cat, fore):
+    """the catalog is bound to the forecast's space-magnitude region: the same object or an equal one (which, is incidental)"""
+    reg = getattr(cat, "region", None)
+    if reg is fore.region:
+        return True
+    try:
+        return reg is not None and getattr(reg, "magnitudes", None) is not None and \
+            numpy.array_equal(numpy.asarray(reg.magnitudes, dtype=float), numpy.asarray(fore.magnitudes, dtype=float)) and \
+            reg.num_nodes == fore.region.num_nodes
+    except Exception:
+        return False
+
+
+class _DataMismatch(Exception):
+    pass
 
 
 def _build(spec):
@@ -567,7 +648,20 @@ def _build(spec):
     region = CartesianGrid2D.from_origins(origins, dh=dh, magnitudes=mags)
     c = spec.get("fscale")
     rdt, rl = spec.get("rdtype", "f8"), spec.get("rlayout", "C")
-    if c:
+    if spec.get("factor"):
+        # the forecast holds `held`; earlier factors are set and replaced; the rates under test are held x LAST factor,
+        # computed by the harness itself (numpy broadcasting), and forecast.data must agree
+        from . import c05 as _c05
+        fa = spec["factor"]
+        w0 = 1.0 if fa["last"][0] == "date" else _c05._factor(fa["last"], ns, nm)
+        held = _layout(numpy.asarray(data / w0, dtype=float), rl, 3.0)
+        fore = GriddedForecast(data=held, region=region, magnitudes=mags, name="forecast")
+        for fk in fa.get("pre", []):
+            fore.scale(_c05._factor(fk, ns, nm))
+        data = _c05._apply_factor(fore, numpy.array(held, dtype=float), fa["last"])
+        if not _c05._same_rates(fore, data):
+            raise _DataMismatch("forecast.data is not the stored rates times the factor set last (elementwise)")
+    elif c:
         # the forecast holds data/c and is scaled by c (GriddedDataSet.scale): the rates under test are `fore.data`
         fore = GriddedForecast(data=_layout((data / c).astype(_NP[rdt]), rl, 3.0), region=region, magnitudes=mags,
                                name="forecast").scale(c)
@@ -619,7 +713,7 @@ def _rows_txt(rn):
 
 
 def _score_entries(run, drv, pending, case, mode, fname, data, cnt, rn, obs, td, rdt, qs=None, rates_exact=None,
-                   dims=None):
+                   dims=None, events_txt=None, rn_all=None, pipe=True):
     """oracle + model request for the observed and every simulated entry of one test. data: (space, magnitude) float64
     values of the rates under test, cnt: the gridded observation, rn: injected numbers, rdt: dtype of the rate array"""
     nsim = len(rn)
@@ -636,7 +730,7 @@ def _score_entries(run, drv, pending, case, mode, fname, data, cnt, rn, obs, td,
     if qs is not None and nsim > 0:
         # the reported quantile is the share of reported simulated entries not above the reported observed one (exact)
         want = sum(1 for x in td if x <= obs) / nsim
-        if not (float(qs) == want):
+        if not (abs(float(qs) - want) <= 1e-12):
             run.oracle_failure(case, f"{fname}: quantile {float(qs)!r} but {sum(1 for x in td if x <= obs)} of {nsim} "
                                      f"simulated entries are <= the observed one")
     sims = [_sim_counts(rates1d, rn[k, :], band) for k in range(nsim)]
@@ -660,12 +754,24 @@ def _score_entries(run, drv, pending, case, mode, fname, data, cnt, rn, obs, td,
     # places the simulated events itself (Soft64 weights of C06) and scores them.  rates_exact: the 1-D rate vector the
     # implementation works on, bit for bit (the S-test's marginal sums depend on numpy's summation order).
     # Not sent when the weights are formed in a narrow floating dtype (unit != 0: either placement is allowed there).
-    if unit == 0.0 and nsim > 0:
+    if unit == 0.0 and nsim > 0 and pipe:
         r1 = numpy.asarray(rates1d if rates_exact is None else rates_exact, dtype=float).ravel()
         if len(r1) == len(obs1d) and numpy.all(numpy.isfinite(r1)) and len(r1) <= PIPE_MAX_BINS:
             dd = dims or [len(r1)]
-            j = drv.ask(f"c16_pipe {'B' if mode == 'B' else 'L'} {_lst(dd, str)} {_lst(r1, _frac)} {_lst(r1, _bits)} "
-                        f"{_lst(obs1d, lambda c: str(int(c)))} {_rows_txt(rn)}")
+            if events_txt is not None:
+                # round 4: the catalog itself goes to the model — the events' (cell, magnitude bin) lookups; the model grids
+                # them (C03: spatial_counts for S, spatial_magnitude_counts for CL / Brier), then runs the whole test
+                if rn_all is not None:
+                    # `num_simulations` given separately: ALL injected rows go to the model, which reads the first nsim
+                    j = drv.ask(f"c16_publicN {mode} {data.shape[0]} {data.shape[1]} {_lst(r1, _frac)} {_lst(r1, _bits)} "
+                                f"{events_txt} {nsim} {_rows_txt(rn_all)}")
+                else:
+                    j = drv.ask(f"c16_public {mode} {data.shape[0]} {data.shape[1]} {_lst(r1, _frac)} {_lst(r1, _bits)} "
+                                f"{events_txt} {_rows_txt(rn)}")
+                run.count(f"public-from-events-{mode}")
+            else:
+                j = drv.ask(f"c16_pipe {'B' if mode == 'B' else 'L'} {_lst(dd, str)} {_lst(r1, _frac)} {_lst(r1, _bits)} "
+                            f"{_lst(obs1d, lambda c: str(int(c)))} {_rows_txt(rn)}")
             pending.append((case, "pipe", [j], dict(vals=vals, tols=tols, sims=sims, qs=qs, fname=fname), None))
             run.count(f"pipeline-{mode}")
 
@@ -698,11 +804,19 @@ def _wrong_width(run, drv, pending, case, mode, fn, args, n_active, nsim, g, rat
 def _test_case(run, drv, pending, spec, tag="test"):
     from csep.core import binomial_evaluations as be
     from csep.core import brier_evaluations as br
-    fore, cat, data, cnt = _build(spec)
+    case = dict(spec=spec, kind="test", tag=tag)
+    try:
+        fore, cat, data, cnt = _build(spec)
+    except _DataMismatch as e:
+        run.oracle_failure(case, str(e))
+        return
     ns, nm, nsim = spec["ns"], spec["nm"], spec["nsim"]
     rdt, rl = spec.get("rdtype", "f8"), spec.get("rlayout", "C")
     g = numpy.random.default_rng(spec["rn_seed"])
-    case = dict(spec=spec, kind="test", tag=tag)
+    if spec.get("factor"):
+        run.count(f"factor-{spec['factor']['last'][0]}")
+        if spec["factor"].get("pre"):
+            run.count("factor-sequence")
     fc = cnt.ravel().tolist()
     nontriv = 0 < sum(1 for c in fc if c > 0) < len(fc) and max(fc) >= 2
     cr = spec.get("cat_region")
@@ -713,6 +827,12 @@ def _test_case(run, drv, pending, spec, tag="test"):
     run.count(f"forecast-dtype-{rdt}")
     run.count(f"forecast-layout-{rl}")
     modes = [("S", be.binary_spatial_test), ("CL", be.binary_conditional_likelihood_test), ("B", br.brier_score_test)]
+    # the catalog as the list of its events' (cell, magnitude bin) lookups, for the catalog-level model (c16_public)
+    nev = len(spec["events"]) + sum(c for _, _, c in spec.get("events_bulk", []))
+    evtxt = None
+    if nev <= 2000:
+        evs = [(e[0], e[1]) for e in spec["events"]] + [(i, j) for i, j, c in spec.get("events_bulk", []) for _ in range(c)]
+        evtxt = ",".join(f"{i}:{j}" for i, j in evs) if evs else "-"
     if cr == "none":
         # a catalog without region cannot be gridded by the S-test; the CL / Brier test binds the forecast's region to it
         # (documented fallback), after which the S-test works on the same object: history CL/B first, then S
@@ -720,27 +840,51 @@ def _test_case(run, drv, pending, spec, tag="test"):
     for mode, fn in modes:
         obs1d = cnt.sum(axis=1) if mode == "S" else cnt.ravel()
         n_active = int((obs1d > 0).sum())
-        rn = g.random((nsim, n_active))
+        # round 4: `num_simulations` is an argument of its own - one call in eight injects 1-2 rows MORE than simulations
+        # asked (the first `num_simulations` rows are the ones to be used); rarely a long verbose run (>= 100 simulations,
+        # the `(idx + 1) % 100 == 0` progress branch)
+        surplus = (1 + spec["rn_seed"] % 2) if (spec["rn_seed"] // 5) % 8 == 0 else 0
+        long_run = spec["rn_seed"] % 97 == 0 and ns * nm <= 400
+        nsim_call = (100 + spec["rn_seed"] % 31) if long_run else nsim
+        rn_all = g.random((nsim_call + surplus, n_active))
+        rn = rn_all[:nsim_call]
         try:
             with numpy.errstate(all="ignore"):
-                res = fn(fore, cat, num_simulations=nsim, random_numbers=rn)
+                if long_run:
+                    import contextlib
+                    import io
+                    with contextlib.redirect_stdout(io.StringIO()):
+                        res = fn(fore, cat, num_simulations=nsim_call, random_numbers=rn_all, verbose=True)
+                    run.count("long-verbose-run")
+                else:
+                    res = fn(fore, cat, num_simulations=nsim_call, random_numbers=rn_all)
         except Exception as e:
             run.oracle_failure(case, f"{fn.__name__} raised {type(e).__name__}: {e}")
             continue
         run.count(f"call-{fn.__name__}")
+        if surplus:
+            run.count("injected-rows-exceed-num-simulations")
         rex = None
         if mode == "S":
             with numpy.errstate(all="ignore"):
                 rex = numpy.asarray(fore.spatial_counts(), dtype=float)
         _score_entries(run, drv, pending, case, mode, fn.__name__, data, cnt, rn, float(res.observed_statistic),
                        [float(x) for x in res.test_distribution], rdt, qs=res.quantile, rates_exact=rex,
-                       dims=[ns, nm] if mode == "B" else None)
+                       dims=[ns, nm] if mode == "B" else None, events_txt=evtxt, rn_all=rn_all if surplus else None,
+                       pipe=not long_run)
         if spec["rn_seed"] % 8 == 0:
             _wrong_width(run, drv, pending, case, mode, fn, (fore, cat), n_active, nsim, g,
                          rex if mode == "S" else data.ravel(), [int(c) for c in obs1d], [ns, nm] if mode == "B" else None)
-    if cr in ("none", "nomag") and getattr(cat, "region", None) is not fore.region:
-        run.oracle_failure(case, f"a catalog that came without a space-magnitude region ({cr}) is bound to "
-                                 f"{getattr(cat, 'region', None)!r} after the CL / Brier test, not to the forecast's region")
+    if cr in ("none", "nomag"):
+        # the forecast's space-magnitude region, the same object or an equal one (which of the two is incidental)
+        reg = getattr(cat, "region", None)
+        ok = reg is fore.region or (reg is not None and getattr(reg, "magnitudes", None) is not None and
+                                    numpy.array_equal(numpy.asarray(reg.magnitudes, dtype=float),
+                                                      numpy.asarray(fore.magnitudes, dtype=float)) and
+                                    getattr(reg, "num_nodes", None) == fore.region.num_nodes)
+        if not ok:
+            run.oracle_failure(case, f"a catalog that came without a space-magnitude region ({cr}) is bound to "
+                                     f"{reg!r} after the CL / Brier test, not to the forecast's region")
     _cells_check(run, drv, pending, case, fore, cat, data, cnt, rdt)
 
 
@@ -826,6 +970,32 @@ def _guard(run, case, fn, *a):
         return None
 
 
+import contextlib as _contextlib
+
+
+@_contextlib.contextmanager
+def _capture_sims(module, rec):
+    """record a copy of what every call of the module's private `_simulate_catalog` returns (nothing in the tree under test
+    is edited; absent helper: nothing is recorded and the harness's own replay of the legacy stream stands in)"""
+    orig = getattr(module, "_simulate_catalog", None)
+    if not callable(orig):
+        yield rec
+        return
+
+    def wrap(*a, **k):
+        out = orig(*a, **k)
+        try:
+            rec.append(numpy.asarray(out, dtype=float).astype(int).ravel().copy())
+        except Exception:
+            rec.append(numpy.zeros(0, dtype=int))
+        return out
+    module._simulate_catalog = wrap
+    try:
+        yield rec
+    finally:
+        module._simulate_catalog = orig
+
+
 def _rej_sims(rates1d, n_active, nsim, stream):
     """the simulated catalogs of the rejection loop (random_numbers=None) for the given stream of uniform numbers;
     None when the stream runs out"""
@@ -893,9 +1063,12 @@ def _default_case(run, drv, pending, spec, tag="default"):
             calls = [("S", be.binary_spatial_test, (fore, cat)), ("CL", be.binary_conditional_likelihood_test, (fore, cat)),
                      ("B", br.brier_score_test, (fore, cat))]
         else:
-            calls = [("CL", be._binary_likelihood_test, (numpy.array(data), numpy.array(cnt))),
-                     ("S", be._binary_likelihood_test, (data.sum(axis=1), cnt.sum(axis=1))),
-                     ("B", br._brier_score_test, (numpy.array(data), numpy.array(cnt)))]
+            blt, bst = _private(run, be, "_binary_likelihood_test", _DRIVER_PARAMS), _private(run, br, "_brier_score_test", _DRIVER_PARAMS)
+            if blt is None or bst is None:
+                return
+            calls = [("CL", blt, (numpy.array(data), numpy.array(cnt))),
+                     ("S", blt, (data.sum(axis=1), cnt.sum(axis=1))),
+                     ("B", bst, (numpy.array(data), numpy.array(cnt)))]
         for mode, fn, args in calls:
             if mode == "S":
                 with numpy.errstate(all="ignore"):
@@ -913,12 +1086,27 @@ def _default_case(run, drv, pending, spec, tag="default"):
                 kw["verbose"] = bool(spec["verbose"])
             if spec["seeding"] == "ambient":
                 numpy.random.seed(seed)
+            rec = []
             try:
-                with numpy.errstate(all="ignore"), contextlib.redirect_stdout(io.StringIO()):
+                with numpy.errstate(all="ignore"), contextlib.redirect_stdout(io.StringIO()), _capture_sims(br if mode == "B" else be, rec):
                     res = fn(*args, **kw)
             except Exception as e:
                 run.oracle_failure(case, f"{fn.__name__} (random_numbers=None, {kw}) raised {type(e).__name__}: {e}")
                 continue
+            # round 4: the simulated catalogs the code itself built (observable while its `_simulate_catalog` helper is
+            # called once per simulation).  If they are valid catalogs (0/1, exactly n_active active bins, none of rate <= 0)
+            # but NOT the ones the legacy one-number-per-iteration loop places, the code consumes the generator's stream
+            # in another way (batches, another call shape) - legal: its entries are judged on the catalogs it built and
+            # the stream model is not applied.
+            use_stream_model = True
+            if len(rec) == nsim and all(len(a) == len(r1) for a in rec):
+                run.count("default-path-simulated-arrays-observed")
+                if not all(numpy.array_equal(a, b) for a, b in zip(rec, ref)):
+                    valid = all(set(numpy.unique(a).tolist()) <= {0, 1} and int(a.sum()) == n_active and
+                                not numpy.any((a > 0) & (numpy.asarray(r1) <= 0.0)) for a in rec)
+                    if valid:
+                        run.count("default-path-stream-consumed-differently")
+                        ref, use_stream_model = rec, False
 
             def examine():
                 if spec["level"] == "public":
@@ -929,7 +1117,7 @@ def _default_case(run, drv, pending, spec, tag="default"):
                     run.oracle_failure(case, f"{fn.__name__}: {len(td)} simulated entries for {nsim} simulations")
                     return
                 want = sum(1 for x in td if x <= obs) / nsim
-                if float(qs) != want:
+                if abs(float(qs) - want) > 1e-12:
                     run.oracle_failure(case, f"{fn.__name__}: quantile {float(qs)!r} but {int(want * nsim)} of {nsim} "
                                              f"simulated entries are <= the observed one")
                 chk = _check_brier if mode == "B" else _check_binary
@@ -939,6 +1127,8 @@ def _default_case(run, drv, pending, spec, tag="default"):
                 for k in range(nsim):
                     tols.append(chk(run, case, f"{fn.__name__} simulated[{k}] (default random path, seed {seed})", td[k],
                                     orates, [int(c) for c in ref[k]]))
+                if not use_stream_model:
+                    return
                 dd = [ns, nm] if mode == "B" else [len(r1)]
                 j = drv.ask(f"c16_stream {'B' if mode == 'B' else 'L'} {_lst(dd, str)} {_lst(r1, _frac)} {_lst(r1, _bits)} "
                             f"{_lst(o1, lambda c: str(int(c)))} {nsim} {_lst(stream[:4000], _frac)}")
@@ -952,7 +1142,7 @@ def _gen_session_spec(rng, tier):
     """lesson 1: ONE forecast object, two catalogs (sharing the forecast's region object, or arriving without region),
     a random sequence of evaluations and re-scalings of the forecast"""
     test = _gen_test_spec(rng, tier)
-    for k in ("rdtype", "rlayout"):
+    for k in ("rdtype", "rlayout", "factor"):
         test.pop(k, None)
     test["fscale"], test["nsim"] = None, rng.choice([1, 2])
     test["cat_region"] = rng.choice(["same", "same", "equal", "none", "nomag"])
@@ -963,7 +1153,8 @@ def _gen_session_spec(rng, tier):
     for _ in range(rng.randint(3, 7)):
         r = rng.random()
         if r < 0.3:
-            kind = rng.choice(["scalar", "scalar", "one", "array-full", "array-col", "array-row"])
+            kind = rng.choice(["scalar", "scalar", "one", "array-full", "array-col", "array-row", "array-row2d", "array-0d",
+                               "np-scalar"])
             steps.append(["scale", kind, rng.choice([0.5, 2.0, 3.0, 0.1, 10.0]), rng.randrange(2 ** 32)])
         else:
             steps.append([rng.choice(["S", "CL", "B", "cells"]), rng.choice([0, 0, 1]), rng.randrange(2 ** 32)])
@@ -993,8 +1184,13 @@ def _session_case(run, drv, pending, spec, tag="session"):
         if st[0] == "scale":
             _, kind, c, sd = st
             g = numpy.random.default_rng(sd)
-            val = dict(scalar=c, one=1)[kind] if kind in ("scalar", "one") else \
-                g.choice([0.5, 2.0, 4.0], size=dict([("array-full", (ns, nm)), ("array-col", (ns, 1)), ("array-row", (nm,))])[kind])
+            if kind in ("scalar", "one"):
+                val = dict(scalar=c, one=1)[kind]
+            elif kind == "np-scalar":
+                val = numpy.float64(c) if sd % 2 else numpy.float32(0.5)
+            else:
+                val = g.choice([0.5, 2.0, 4.0], size=dict([("array-full", (ns, nm)), ("array-col", (ns, 1)), ("array-row", (nm,)),
+                                                           ("array-row2d", (1, nm)), ("array-0d", ())])[kind])
             try:
                 fore.scale(val)
             except Exception as e:
@@ -1036,7 +1232,7 @@ def _session_case(run, drv, pending, spec, tag="session"):
                 run, drv, pending, case, mode, f"step {k} {fns[mode].__name__}", now, cnt, rn,
                 float(res.observed_statistic), [float(x) for x in res.test_distribution], "f8", qs=res.quantile,
                 rates_exact=rex, dims=[ns, nm] if mode == "B" else None))
-            if mode in ("CL", "B") and t.get("cat_region") in ("none", "nomag") and cat.region is not fore.region:
+            if mode in ("CL", "B") and t.get("cat_region") in ("none", "nomag") and not _bound_to(cat, fore):
                 run.oracle_failure(case, f"step {k}: the catalog without space-magnitude region was not bound to the "
                                          f"forecast's region by {fns[mode].__name__}")
                 return
@@ -1088,7 +1284,7 @@ def _flush_pipe(run, case, line, exp):
         obs = vals[0]
         tie = any(t is None or abs(v - obs) <= 1e-9 * max(abs(v), abs(obs)) + 2 * (t + (tols[0] or 0.0)) + 1e-300
                   for v, t in zip(vals[1:], tols[1:])) or tols[0] is None
-        if not tie and float(qs) != k / n:
+        if not tie and abs(float(qs) - k / n) > 1e-12:
             run.mismatch(dict(case, mode="pipe-quantile"), float(qs), f"{k}/{n}")
 
 
@@ -1116,6 +1312,65 @@ def _flush(run, drv, pending):
     run.extra["max_rel_dev_impl_vs_oracle"] = _DEV["oracle"]
     run.extra["max_rel_dev_impl_vs_lean_float"] = _DEV["model"]
     pending.clear()
+
+
+# ----------------------------------------------------------------------------- numpy.ma primitives (trusted base, round 4)
+_MA_OPS = ("where", "neg", "exp", "rsub", "log", "rmul", "filled0")
+
+
+def _ma_primitives(run, drv, rng, n):
+    """each numpy.ma primitive `binary_joint_log_likelihood_ndarray` goes through (Model/MaskedOps.lean), on its own, against
+    numpy.ma itself: data of EVERY slot (masked ones included - `.data` reads them) and mask.  This validates the trusted
+    transcription of numpy.ma, not pyCSEP: a disagreement is a harness error (exit 2), never a verdict."""
+    asks = []
+    for _ in range(n):
+        g = numpy.random.default_rng(rng.randrange(2 ** 32))
+        k = rng.choice([1, 2, 3, 5, 9])
+        pool = [0.0, -0.0, 1.0, 0.5, 1e-9, 1e-17, 2.0 ** -54, 3.0, 10.0, -1.0, -2.5, 700.0, 1e-300, 0.9999999999999999]
+        data = numpy.array([rng.choice(pool) if rng.random() < 0.6 else float(10.0 ** g.uniform(-12, 2)) * rng.choice([1, 1, -1])
+                            for _ in range(k)])
+        mk = rng.choice(["random", "random", "none", "all"])
+        mask = numpy.array([rng.random() < 0.4 for _ in range(k)]) if mk == "random" else numpy.full(k, mk == "all")
+        y = numpy.array([rng.choice([0.0, 1.0]) for _ in range(k)])
+        op = rng.choice(_MA_OPS)
+        m = numpy.ma.MaskedArray(data.copy(), mask=mask.copy())
+        with numpy.errstate(all="ignore"):
+            if op == "where":
+                r = numpy.ma.masked_where(data <= 0.0, data)
+            elif op == "neg":
+                r = -m
+            elif op == "exp":
+                r = numpy.exp(m)
+            elif op == "rsub":
+                r = 1.0 - m
+            elif op == "log":
+                r = numpy.log(m)
+            elif op == "rmul":
+                r = y * m
+            else:
+                r = m.filled(0)
+        rd = numpy.asarray(numpy.ma.getdata(r), dtype=float)
+        rm = numpy.ma.getmaskarray(r) if op != "filled0" else None
+        i = drv.ask(f"c16_ma {op} {_lst(data, _bits)} {_lst(mask, lambda b: '1' if b else '0')} "
+                    f"{_lst(y, _bits) if op == 'rmul' else '-'}")
+        asks.append((i, op, data, mask, y, rd, rm))
+    out = drv.run()
+    for i, op, data, mask, y, rd, rm in asks:
+        parts = out[i].split(" ")
+        md = [_unbits(t) for t in parts[0].split(",")]
+        mm = [t == "1" for t in parts[1].split(",")] if len(parts) > 1 else None
+        ok = len(md) == len(rd) and (rm is None or mm == [bool(b) for b in rm])
+        for a, b in zip(md, rd):
+            same = (a == b and math.copysign(1.0, a) == math.copysign(1.0, b)) or (math.isnan(a) and math.isnan(b))
+            if not same and op in ("exp", "log") and math.isfinite(a) and math.isfinite(b):
+                same = abs(a - b) <= 4e-16 * max(abs(a), abs(b))           # libm vs numpy's exp / log: a few ulp
+            ok = ok and same
+        if not ok:
+            raise AssertionError(f"trusted base: numpy.ma primitive {op!r} differs from its model on data={data.tolist()} "
+                                 f"mask={mask.tolist()} y={y.tolist()}: numpy {rd.tolist()} {None if rm is None else rm.tolist()} "
+                                 f"model {out[i]!r}")
+        run.count(f"numpy-ma-primitive-{op}")
+    run.extra["numpy_ma_primitives_compared"] = run.extra.get("numpy_ma_primitives_compared", 0) + len(asks)
 
 
 def _corpus_cases():
@@ -1158,7 +1413,8 @@ def run(run, rng, tier):
         _KINDS.get(c.get("kind"), _test_case)(run, drv, pending, c["spec"], tag="corpus")
     for spec in _fixed_array_specs():
         _array_case(run, drv, pending, spec, tag="fixed")
-    n_arr, n_test = (5000, 1500) if tier == "quick" else (60000, 18000)
+    n_arr, n_test = (5000, 1500) if tier == "quick" else (50000, 15000)
+    _ma_primitives(run, Driver(), rng, 400 if tier == "quick" else 6000)
     # phase 2 classes first (cheap): sizes, default random path, sessions on shared objects
     for _ in range(2 if tier == "quick" else 12):
         _array_case(run, drv, pending, _gen_big_array_spec(rng), tag="big")
